@@ -85,8 +85,7 @@ func ruleStructLocksets(c *Check, rule string, progs []*Prog) {
 					if isMutex(ft) || selfSync(ft) {
 						continue
 					}
-					if al, isAl := fa.X.(*ssa.Alloc); isAl {
-						_ = al
+					if rootIsLocalAlloc(fa.X) {
 						continue // under construction
 					}
 					ak := fmt.Sprintf("%s|%s|%d|%d|%d", p.InstrPos(fa), fnName(fn), fa.Field, b.Index, ii)
@@ -587,4 +586,219 @@ func metricDeclaresLabels(p *Prog, nd *Node, isCtor func(*ssa.Function) bool) bo
 		}
 	}
 	return true
+}
+
+// ruleLayerImplsSynchronised (C13-R14): the node calls its layers from several goroutines at once
+// (the reaper hands transactions to the sequencer while block production takes batches from it; the
+// execution layer is driven by production, sync, the DA includer and the RPC server; the DA layer
+// by both submission loops and the scan; the signer by production and the data submitter). Every
+// implementation of those interfaces in the repository therefore keeps no plain mutable state: a
+// field of such a type that any function writes after construction is of a self-synchronising
+// type or is written with the type's mutex held (and then R11 covers all its accesses).
+func ruleLayerImplsSynchronised(c *Check, rule string, progs []*Prog) {
+	ifaceNames := []string{rootPath + "/core/sequencer.Sequencer", rootPath + "/core/execution.Executor", rootPath + "/core/da.DA", rootPath + "/pkg/signer.Signer"}
+	isMutex := func(t types.Type) bool {
+		s := strings.TrimPrefix(t.String(), "*")
+		return s == "sync.Mutex" || s == "sync.RWMutex"
+	}
+	seenT := map[string]bool{}
+	n := 0
+	for _, p := range progs {
+		var ifaces []*types.Interface
+		for _, in := range ifaceNames {
+			i := strings.LastIndex(in, ".")
+			if tp := p.TypesPkg(in[:i]); tp != nil {
+				if o := tp.Scope().Lookup(in[i+1:]); o != nil {
+					if it, ok := o.Type().Underlying().(*types.Interface); ok {
+						ifaces = append(ifaces, it)
+					}
+				}
+			}
+		}
+		for _, pkg := range p.Pkgs {
+			pp := pkg.PkgPath
+			if !strings.HasPrefix(pp, rootPath) || strings.Contains(pp, "/test/") || strings.Contains(pp, "/mocks") || pkg.Types == nil {
+				continue
+			}
+			for _, name := range pkg.Types.Scope().Names() {
+				tn, ok := pkg.Types.Scope().Lookup(name).(*types.TypeName)
+				if !ok || seenT[pp+"."+name] {
+					continue
+				}
+				st, ok := tn.Type().Underlying().(*types.Struct)
+				if !ok {
+					continue
+				}
+				impl := ""
+				for k, it := range ifaces {
+					if types.Implements(types.NewPointer(tn.Type()), it) || types.Implements(tn.Type(), it) {
+						impl = ifaceNames[k][strings.LastIndex(ifaceNames[k], "/")+1:]
+					}
+				}
+				if impl == "" {
+					continue
+				}
+				seenT[pp+"."+name] = true
+				var mus []string
+				for i := 0; i < st.NumFields(); i++ {
+					if isMutex(st.Field(i).Type()) {
+						mus = append(mus, fieldLabel(tn.Type(), i))
+					}
+				}
+				// writes after construction, per field
+				type wr struct {
+					fn *ssa.Function
+					in *ssa.FieldAddr
+				}
+				writes := map[string][]wr{}
+				for _, fn := range p.Funcs {
+					if fn.Blocks == nil {
+						continue
+					}
+					for _, b := range fn.Blocks {
+						for _, in := range b.Instrs {
+							fa, ok := in.(*ssa.FieldAddr)
+							if !ok {
+								continue
+							}
+							nt, ok := derefType(fa.X.Type()).(*types.Named)
+							if !ok || nt.Obj() != tn {
+								continue
+							}
+							if rootIsLocalAlloc(fa.X) {
+								continue // under construction
+							}
+							ft := st.Field(fa.Field).Type()
+							if isMutex(ft) || selfSync(ft) || !fieldAddrWritten(fa) {
+								continue
+							}
+							l := fieldLabel(fa.X.Type(), fa.Field)
+							writes[l] = append(writes[l], wr{fn, fa})
+						}
+					}
+				}
+				n++
+				inst := shortName(pp) + "." + name + " (" + impl + ") ⟂ no plain mutable state"
+				var bad []string
+				for _, l := range sortedKeys(writes) {
+					for _, w := range writes[l] {
+						held := false
+						for _, mu := range mus {
+							if lockHeldInterproc(p, w.fn, w.in, mu, 3) {
+								held = true
+							}
+						}
+						// a functional option / setter applied by the constructor before the value is shared
+						if !held && (allocatesType(w.fn, tn) || onlyCalledDuringConstruction(p, w.fn, tn)) {
+							held = true
+						}
+						if !held {
+							bad = append(bad, l+" written in "+fnShort(w.fn)+"@"+p.InstrPos(w.in))
+						}
+					}
+				}
+				sort.Strings(bad)
+				if len(bad) == 0 {
+					c.OK(rule, inst, "", p.Pos(tn.Pos()), fmt.Sprintf("%d fields written after construction, each self-synchronising or written under the type's mutex", len(writes)), true)
+				} else {
+					c.Bad(rule, inst, "", p.Pos(tn.Pos()), "the type implements "+impl+", whose methods the node calls from several goroutines at once, and keeps plain state that is written after construction without its mutex: "+strings.Join(bad, ", ")+" — a data race between the calling loops", nil)
+				}
+			}
+		}
+	}
+	if n == 0 {
+		c.Unk(rule, "layer implementations", "", "", "anchor lost: no implementation of the layer interfaces found")
+	}
+}
+
+// onlyCalledDuringConstruction: fn (or the closure it is) writes the field on a value that is
+// still being built: every static call site passes a locally allocated value of the type, or fn
+// is a closure returned as a functional option and applied in a function that allocates the value.
+func onlyCalledDuringConstruction(p *Prog, fn *ssa.Function, tn *types.TypeName) bool {
+	isLocalAlloc := func(v ssa.Value) bool {
+		for i := 0; i < 4; i++ {
+			switch x := v.(type) {
+			case *ssa.Alloc:
+				return true
+			case *ssa.UnOp:
+				v = x.X
+				continue
+			case *ssa.Phi:
+				return false
+			}
+			break
+		}
+		return false
+	}
+	top := fn
+	if fn.Parent() != nil {
+		// a functional option: the closure is returned by its parent; options are applied by the
+		// constructor, which allocates the value
+		top = fn.Parent()
+		for _, b := range top.Blocks {
+			if ret, ok := b.Instrs[len(b.Instrs)-1].(*ssa.Return); ok {
+				for _, r := range ret.Results {
+					if mc, ok := r.(*ssa.MakeClosure); ok && mc.Fn == ssa.Value(fn) {
+						return true
+					}
+				}
+			}
+		}
+		return false
+	}
+	sites := 0
+	for _, caller := range p.Funcs {
+		for _, b := range caller.Blocks {
+			for _, in := range b.Instrs {
+				call, ok := in.(*ssa.Call)
+				if !ok || call.Common().StaticCallee() != fn {
+					continue
+				}
+				sites++
+				okSite := false
+				for _, a := range call.Common().Args {
+					if nt, isN := derefType(a.Type()).(*types.Named); isN && nt.Obj() == tn && isLocalAlloc(a) {
+						okSite = true
+					}
+				}
+				if !okSite {
+					return false
+				}
+			}
+		}
+	}
+	return sites > 0
+}
+
+// allocatesType: fn allocates a value of the named type (it is a constructor of it: the fields it
+// writes belong to the value it is building).
+func allocatesType(fn *ssa.Function, tn *types.TypeName) bool {
+	for _, b := range fn.Blocks {
+		for _, in := range b.Instrs {
+			if al, ok := in.(*ssa.Alloc); ok {
+				if nt, ok := derefType(al.Type()).(*types.Named); ok && nt.Obj() == tn {
+					return true
+				}
+			}
+		}
+	}
+	return false
+}
+
+// rootIsLocalAlloc: the address is rooted (through field / element addresses) in an allocation of
+// the enclosing function: the value is still being built there.
+func rootIsLocalAlloc(v ssa.Value) bool {
+	for i := 0; i < 6; i++ {
+		switch x := v.(type) {
+		case *ssa.Alloc:
+			return true
+		case *ssa.FieldAddr:
+			v = x.X
+		case *ssa.IndexAddr:
+			v = x.X
+		default:
+			return false
+		}
+	}
+	return false
 }
